@@ -80,6 +80,10 @@ class PlainText(SymStr):
     question it answers is that it does not contain a string that includes an introducer."""
 
 
+class EscText(SymStr):
+    """Symbolic text that DOES contain the 7-bit CSI introducer ESC[ (input of the parsing path of from_str)."""
+
+
 class ModRef:
     """Reference to another module of the package (from . import events)."""
 
@@ -320,13 +324,23 @@ class Folder:
         elif isinstance(t, ast.Subscript):
             if v is TOP:
                 raise Unknown("store of unknown value")
-            self.expr(t.value, env)[self.expr(t.slice, env)] = v
+            base = self.expr(t.value, env)
+            if not isinstance(base, (dict, list)):
+                raise Unknown("subscript store on %s" % type(base).__name__)
+            base[self._index(t, env)] = v
         else:
             raise Unknown("assign target %s" % type(t).__name__)
+
+    def _index(self, t, env):
+        if isinstance(t.slice, ast.Slice):
+            return slice(*(self.expr(x, env) if x is not None else None for x in (t.slice.lower, t.slice.upper, t.slice.step)))
+        return self.expr(t.slice, env)
 
     # ---- expressions ----------------------------------------------------------------
     # value-level operations (overridden by sa.objinterp.OFolder to add modelled objects)
     def v_truth(self, v):
+        if isinstance(v, (PlainText, EscText)):
+            return True          # these symbolic texts stand for NON-EMPTY text
         if isinstance(v, SymStr) or v is TOP:
             raise Unknown("truth value of symbolic text")
         self._plain(v)
@@ -387,6 +401,9 @@ class Folder:
 
     def v_compare(self, op, l, r):
         self._plain(l), self._plain(r)
+        if isinstance(r, EscText) and isinstance(op, (ast.In, ast.NotIn)) and isinstance(l, str) and \
+                not isinstance(l, SymStr) and l in ("\x1b[", "\x1b"):
+            return isinstance(op, ast.In)
         if isinstance(r, PlainText) and isinstance(op, (ast.In, ast.NotIn)) and isinstance(l, str) and \
                 not isinstance(l, SymStr) and ("\x1b" in l or "\x9b" in l):
             return isinstance(op, ast.NotIn)
